@@ -73,6 +73,9 @@ impl Scenario for MacScenario {
         if self.tampered {
             p["corrupt"] = json!(r.below(3));
             p["site_seed"] = json!(r.next_u64() >> 12);
+            // "consistent": the corrupt helper adds the same error to a product share it sends AND to the copy of
+            // that share it contributes to the opening, so that the two copies agree and only the MAC can catch it
+            p["attack"] = json!(if field != "prf" && r.chance(1, 2) { "consistent" } else { "single" });
         }
         p["sched"] = SchedSpec::draw(&mut r, est, 3_000_000);
         p
@@ -127,7 +130,7 @@ impl MacField for Fp25519 {
     }
 }
 
-fn run_f<F>(p: &Value, spec: &SchedSpec, xs: &[F], ys: &[F], site: Option<Site>) -> OneRun
+fn run_f<F>(p: &Value, spec: &SchedSpec, xs: &[F], ys: &[F], sites: Vec<Site>) -> OneRun
 where
     F: MacField,
     F: IntoShares<Replicated<F>>,
@@ -139,7 +142,7 @@ where
     let knobs = &p["knobs"];
     let (active, read_size, world_seed) = (pu(knobs, "active"), pu(knobs, "read_size"), pu64(knobs, "world_seed"));
     let input_seed = pu64(p, "input_seed");
-    let (tamper, interceptor) = faults::tamper(site);
+    let (tamper, interceptor) = faults::tamper_many(sites);
     let log: StdArc<StdMutex<BTreeMap<usize, HelperRes>>> = StdArc::new(StdMutex::new(BTreeMap::new()));
     let log2 = StdArc::clone(&log);
     let (xs, ys) = (xs.to_vec(), ys.to_vec());
@@ -201,7 +204,7 @@ where
     let want: Vec<Vec<u8>> = zip(&xs, &ys).map(|(x, y)| ser(&(*x * *y))).collect();
     let spec = SchedSpec::from_json(&p["sched"], explicit);
     let shape = format!("mac {field} r{records} a{} t{}", pu(&p["knobs"], "active"), u8::from(tampered));
-    let honest = run_f::<F>(p, &spec, &xs, &ys, None);
+    let honest = run_f::<F>(p, &spec, &xs, &ys, Vec::new());
     if let Some(v) = judge_honest(&honest, &want, &shape) {
         return v;
     }
@@ -214,15 +217,36 @@ where
     let corrupt = pu(p, "corrupt");
     let mut sr = Rng::sub(pu64(p, "site_seed"), 0);
     let addle = format!("addle:{width}");
-    let site = match p.get("site") {
-        Some(s) if !s.is_null() => Some(Site::from_json(s)),
-        _ => draw_site(&honest.inv, &|k: &ChanKey| k.sender_helper() == corrupt, &mut sr, &[addle.as_str(), addle.as_str(), "flip:0", "flip:2", "add1"]),
+    let consistent = p.get("attack").and_then(Value::as_str) == Some("consistent");
+    let sites: Vec<Site> = match p.get("site") {
+        Some(s) if !s.is_null() => Site::list_from_json(s),
+        _ if consistent => {
+            // product share message of the corrupt helper, and its opening message to the helper that did not receive it
+            let k = sr.below(records);
+            let mult = honest.inv.keys().find(|c| c.kind == "mpc" && c.src == corrupt && c.gate.ends_with("/mult")).cloned();
+            match mult {
+                Some(m) => {
+                    let third = 3 - corrupt - m.dst;
+                    let open = honest.inv.keys().find(|c| c.kind == "mpc" && c.src == corrupt && c.dst == third && c.gate.ends_with("/open")).cloned();
+                    match open {
+                        Some(o) => vec![
+                            Site { chan: m, chunk: 0, offset: 0, pattern: addle.clone(), stream_off: Some(k * width) },
+                            Site { chan: o, chunk: 0, offset: 0, pattern: addle.clone(), stream_off: Some(k * width) },
+                        ],
+                        None => Vec::new(),
+                    }
+                }
+                None => Vec::new(),
+            }
+        }
+        _ => draw_site(&honest.inv, &|k: &ChanKey| k.sender_helper() == corrupt, &mut sr, &[addle.as_str(), addle.as_str(), "flip:0", "flip:2", "add1"]).into_iter().collect(),
     };
-    let Some(site) = site else {
+    if sites.is_empty() {
         return RunRes::inconclusive("no_site", "no channel of the corrupt helper".into(), shape, Some(honest.outcome));
-    };
-    let bad = run_f::<F>(p, &spec, &xs, &ys, Some(site.clone()));
-    judge_tampered(&bad, &want, corrupt, &site, &field, honest.inv.len(), shape)
+    }
+    let need = sites.len();
+    let bad = run_f::<F>(p, &spec, &xs, &ys, sites.clone());
+    judge_tampered(&bad, &want, corrupt, &sites, need, &field, honest.inv.len(), shape)
 }
 
 fn judge_honest(run: &OneRun, want: &[Vec<u8>], shape: &str) -> Option<RunRes> {
@@ -246,10 +270,12 @@ fn judge_honest(run: &OneRun, want: &[Vec<u8>], shape: &str) -> Option<RunRes> {
     None
 }
 
-fn judge_tampered(bad: &OneRun, want: &[Vec<u8>], corrupt: usize, site: &Site, field: &str, inv_len: usize, shape: String) -> RunRes {
+fn judge_tampered(bad: &OneRun, want: &[Vec<u8>], corrupt: usize, sites: &[Site], need: usize, field: &str, inv_len: usize, shape: String) -> RunRes {
     let o = bad.outcome.clone();
+    let site = &sites[0];
+    let sites_json: Vec<Value> = sites.iter().map(Site::to_json).collect();
     if bad.fired.is_empty() {
-        return RunRes::inconclusive("tamper_not_delivered", format!("site {} never reached", site.to_json()), shape, Some(o));
+        return RunRes::inconclusive("tamper_not_delivered", format!("sites {} never reached", json!(sites_json)), shape, Some(o));
     }
     let (a, b) = ((corrupt + 1) % 3, (corrupt + 2) % 3);
     let mut res = match (bad.res.get(&a), bad.res.get(&b)) {
@@ -265,7 +291,7 @@ fn judge_tampered(bad: &OneRun, want: &[Vec<u8>], corrupt: usize, site: &Site, f
                 r
             } else {
                 RunRes::violation("mac_tamper_accepted_result_changed",
-                    format!("helper {} altered {}; both honest helpers validated and opened values, which differ from x*y", corrupt + 1, site.to_json()), shape, Some(o.clone()))
+                    format!("helper {} altered {}; both honest helpers validated and opened values, which differ from x*y", corrupt + 1, json!(sites_json)), shape, Some(o.clone()))
             }
         }
         _ => {
@@ -275,13 +301,16 @@ fn judge_tampered(bad: &OneRun, want: &[Vec<u8>], corrupt: usize, site: &Site, f
         }
     };
     res.fault("F1_tamper_delivered", 1);
+    if need > 1 {
+        res.fault("F1_consistent_two_site_attack", u64::from(bad.fired.len() >= need));
+    }
     if field == "fp31" {
         res.probe("fp31_tamper_delivered", 1);
     }
     res.probe(&format!("outcome_{}", o.class), 1);
     let step: String = site.chan.gate.split('/').skip(2).map(|s| s.trim_end_matches(char::is_numeric)).collect::<Vec<_>>().join("/");
     res.probe(&format!("site_{step}"), 1);
-    res.extra = json!({"site": site.to_json(), "fired": bad.fired, "inventory_channels": inv_len});
+    res.extra = json!({"site": sites_json, "fired": bad.fired, "inventory_channels": inv_len});
     res
 }
 
@@ -289,12 +318,12 @@ fn judge_tampered(bad: &OneRun, want: &[Vec<u8>], corrupt: usize, site: &Site, f
 // the pseudonym function g^(1/(k+x)) through the real eval_dy_prf
 // ------------------------------------------------------------------------------------------------
 
-fn run_prf(p: &Value, spec: &SchedSpec, xs: &[Fp25519], key: Fp25519, site: Option<Site>) -> OneRun {
+fn run_prf(p: &Value, spec: &SchedSpec, xs: &[Fp25519], key: Fp25519, sites: Vec<Site>) -> OneRun {
     let records = pu(p, "records");
     let knobs = &p["knobs"];
     let (active, read_size, world_seed) = (pu(knobs, "active"), pu(knobs, "read_size"), pu64(knobs, "world_seed"));
     let input_seed = pu64(p, "input_seed");
-    let (tamper, interceptor) = faults::tamper(site);
+    let (tamper, interceptor) = faults::tamper_many(sites);
     let log: StdArc<StdMutex<BTreeMap<usize, HelperRes>>> = StdArc::new(StdMutex::new(BTreeMap::new()));
     let log2 = StdArc::clone(&log);
     let xs = xs.to_vec();
@@ -346,7 +375,7 @@ fn exec_prf(p: &Value, explicit: Option<Vec<u32>>, tampered: bool) -> RunRes {
     let want: Vec<Vec<u8>> = xs.iter().map(|x| u64::from(RP25519::from(Fp25519::ONE) * (key + *x).invert()).to_le_bytes().to_vec()).collect();
     let spec = SchedSpec::from_json(&p["sched"], explicit);
     let shape = format!("mac prf r{records} a{} t{}", pu(&p["knobs"], "active"), u8::from(tampered));
-    let honest = run_prf(p, &spec, &xs, key, None);
+    let honest = run_prf(p, &spec, &xs, key, Vec::new());
     if let Some(v) = judge_honest(&honest, &want, &shape) {
         return v;
     }
@@ -364,6 +393,6 @@ fn exec_prf(p: &Value, explicit: Option<Vec<u32>>, tampered: bool) -> RunRes {
     let Some(site) = site else {
         return RunRes::inconclusive("no_site", "no channel of the corrupt helper".into(), shape, Some(honest.outcome));
     };
-    let bad = run_prf(p, &spec, &xs, key, Some(site.clone()));
-    judge_tampered(&bad, &want, corrupt, &site, "prf", honest.inv.len(), shape)
+    let bad = run_prf(p, &spec, &xs, key, vec![site.clone()]);
+    judge_tampered(&bad, &want, corrupt, &[site], 1, "prf", honest.inv.len(), shape)
 }
